@@ -64,6 +64,15 @@ CLAIMED = {
              "condition. Trusted: CrossHair, z3; RNG stub, parameter objects concrete, p_sub_function in {0,1}.",
         ref="§4 C16", technique="symbolic execution of the real model generator and handlers with z3 (CrossHair), nondeterministic RNG stub",
     ),
+    "C19": dict(
+        text="Bounded symbolic execution (CrossHair + z3) of the real LinesTransportMixin.write/read (tcp-lines, unix-lines) and the real "
+             "TCPUDSServerTransport.handle_client on a virtual-time event loop with fake streams: message bytes symbolic (all 256 values per position), "
+             "the wire stream cut at a symbolic offset and delivered at symbolic instants, the first read with a symbolic deadline; the solver decides all "
+             "orderings of arrivals and deadlines. Every message is delivered intact, in order, one per read; a timed-out read consumed nothing; EOF is distinguishable.",
+        note="Trusted: CrossHair, z3, engine/vloop.py (virtual-time asyncio loop), asyncio's StreamReader. Sockets and the kernel are outside. One recorded "
+             "known finding (EOF inside a line yields a truncated message).",
+        ref="§4 C19", technique="symbolic execution with symbolic time on a virtual event loop (CrossHair + z3)", engine="vloop",
+    ),
     "C02": dict(
         text="Bounded symbolic execution (CrossHair + z3) of the real UDSResponse.parse_dynamic / from_pdu / pdu code: for every first byte "
              "0x00-0xFF and every total length in the stated bound, with all remaining bytes symbolic, every path is explored and the "
@@ -116,6 +125,9 @@ def main():
             "add_only": True,
         },
         "engines": [
+            {"name": "vloop", "path": "engine/vloop.py", "serves_properties": sorted(p for p, c in CLAIMED.items() if c.get("engine") == "vloop"),
+             "kind_free_text": "virtual-time asyncio event loop whose clock is a (symbolic) integer: real asyncio primitives and gallia transports run on it, "
+                               "event orderings are decided by z3 through CrossHair"},
             {"name": "crosshair-harness", "path": "engine/", "serves_properties": sorted(CLAIMED),
              "kind_free_text": "CrossHair 0.0.110 symbolic execution (z3 5.1) of the real gallia code, harnesses generated by introspection of /repo's current source, "
                                "16-process pool, reachability twins, concrete replay of every solver model"},
